@@ -398,6 +398,8 @@ def _observe(algo):
     init = _initializer(inner)
     o['init_counts'] = (init.num_proposals, init.num_feedbacks)
     o['init_kind'] = _gen_kind(init) + '-initializer'
+    o['init_size'] = (inner.population_init[1] if isinstance(inner.population_init, tuple)
+                      else None)
     o['init_cache'] = None
     o['init_rejected'] = False
     if isinstance(init, pg.geno.Deduping):
@@ -444,6 +446,7 @@ class _Run:
     self.stopped = False
     self.refused = 0
     self.failed_proposes = 0
+    self.init_exhausted = False   # evolving although fewer feedbacks than the initial size
     self.error = None        # the algorithm itself failed (not a C15 matter)
     self._snap()
     for e in events:
@@ -486,6 +489,11 @@ class _Run:
       # the same fitness.  The uninterrupted run ends here.
       self.error = e
       return False
+    inner = self.algo.generator if isinstance(self.algo, pg.geno.Deduping) else self.algo
+    if (isinstance(inner, ev.Evolution) and isinstance(inner.population_init, tuple)
+        and not d.metadata.get('initial_population')
+        and inner.num_feedbacks < inner.population_init[1]):
+      self.init_exhausted = True
     self.dnas.append(d)
     self.rewards.append(None)
     self.outcomes.append(str(d))
@@ -533,7 +541,7 @@ class _Run:
         last_fed=fed,
         proposed=(None if proposed is None
                   else (str(proposed), _next_meta(proposed),
-                        proposed.metadata.get('generation_id'))),
+                        proposed.metadata.get('generation_id'), self.init_exhausted)),
         rejected=(inner_np is not None and inner_np > self.algo.num_proposals),
     ))
 
@@ -908,8 +916,11 @@ def _evo_checks(rec, pre, kind, single, cls, key, oa, ob, snap, nxt, b, wit, ded
     # must evolve again, which may fail for reasons unrelated to recovery
     # (NEAT divides by zero on a population with equal fitness).
     return
-  tag = ('unsized-initializer' if kind.startswith('evolution-unsized-init')
-         else 'sized-initializer')
+  # 'unsized-initializer': the initial phase ends when the initializer is
+  # exhausted -- no size is given, or the uninterrupted run started evolving
+  # when fewer feedbacks than the size had arrived (the initializer, e.g.
+  # Deduping(Sweeping), ran out early).  That StopIteration is not in the history.
+  tag = 'unsized-initializer' if oa['init_size'] is None or nxt[3] else 'sized-initializer'
   ok = rec.case(
       f'{pre}.next-proposal/{phase}/{tag}', key, got is not None and got[0] == nxt[1],
       f'next proposal of the recovered instance has (proposal_id, initial_population)='
@@ -1145,16 +1156,24 @@ _W_TRIALS = """import pyglove as pg
 from pyglove.ext import evolution as ev
 S={space}
 mk=lambda:{algo}
-M={metrics};E={events};R={args}
+M={metrics};E={events};R={rewards}
+A=lambda r:{args}
 a=mk();n='w%d'%id(a);F=[]
 for e in E:
+  i=int(e[1:] or 0)
   if e=='p':F.append(next(pg.sample(S,a,name=n,group=str(len(F)),metrics_to_optimize=M))[1])
-  elif e[0]=='d':F[e[1]].add_measurement(*R[e[1]],step=2);F[e[1]].done()
-  elif e[0]=='m':F[e[1]].add_measurement(*R[e[1]+1],step=1)
-  else:F[e[1]].skip()
+  elif e[0]=='d':F[i].add_measurement(*A(R[i]),step=2);F[i].done()
+  elif e[0]=='m':F[i].add_measurement(*A(R[i+1]),step=1)
+  else:F[i].skip()
 T=pg.from_json_str(pg.to_json_str(pg.tuning.poll_result(n).trials))
 b=mk();b.setup(S);b.recover([(t.dna,t.get_reward_for_feedback(M)) for t in T])
 """
+
+
+def _w_args(metrics):
+  if len(metrics) == 1 and metrics != ['reward']:
+    return f'(None,{{{metrics[0]!r}:r}})'
+  return '(r,)'
 
 
 def drv_recover_from_trials(tier, seed):
@@ -1195,9 +1214,10 @@ def drv_recover_from_trials(tier, seed):
           tcls = _trial_class(snap['state'])
 
           def wit(check, m_=0, _s=snap):
-            w = _W_TRIALS.format(space=space_expr, algo=algo_expr, metrics=metrics,  # pylint: disable=cell-var-from-loop
-                                 events=repr(_s['events']).replace(' ', ''),
-                                 args=repr(args[:_s['k'] + 1]).replace(' ', ''))  # pylint: disable=cell-var-from-loop
+            w = _W_TRIALS.format(
+                space=space_expr, algo=algo_expr, metrics=metrics, args=_w_args(metrics),  # pylint: disable=cell-var-from-loop
+                events=repr([e if e == 'p' else f'{e[0]}{e[1]}' for e in _s['events']]).replace(' ', ''),
+                rewards=repr(rewards[:_s['k'] + 1]).replace(' ', ''))  # pylint: disable=cell-var-from-loop
             w += (_W_CONT.format(m=m_) if check == 'continuation' else _W_CHECK[check] + '\n')
             return w + 'x,y=f(b),f(a)\nassert x==y,(x,y)'
           try:
